@@ -60,6 +60,35 @@ class Spec(_masterprop.MasterSpec):
                     v = dict(v)
                     v['suffix'] = pre + (ev,)
                     viol.append(v)
+                if w2.viol[mark:] or w2.dead:
+                    continue
+                # what the new master does next with the state it restored
+                for follow in self.cfg.get('after_crash', ()):
+                    # one event, or a short sequence of events
+                    seq = follow if isinstance(follow[0], tuple) \
+                        else (follow,)
+                    w3 = statex.build(self, tuple(hist) + pre + (ev,))
+                    done = ()
+                    for fev in seq:
+                        if w3.dead or fev not in w3.enabled():
+                            break
+                        mark3 = len(w3.viol)
+                        ok, exc = statex.step(self, w3, fev)
+                        done += (fev,)
+                        stats['c10_follow_ups'] += 1
+                        if not ok:
+                            if self.exception_clause:
+                                viol.append({
+                                    'clause': self.exception_clause,
+                                    'site': exc['site'], 'detail': exc,
+                                    'suffix': pre + (ev,) + done})
+                            break
+                        for v in w3.viol[mark3:]:
+                            v = dict(v)
+                            v['suffix'] = pre + (ev,) + done
+                            viol.append(v)
+                        if w3.viol[mark3:]:
+                            break
         return viol, {k: v for k, v in stats.items() if v}
 
     @staticmethod
